@@ -241,6 +241,48 @@ pub fn run(o: &Opts) -> Report {
             rep.sample(json!({"announced": format!("{:03}", c), "parse_auto": auto_cls, "parse_mt": pp_cls, "validate_mt": pv_cls}));
         }
     }
-    let _ = o;
+    // (3) rule-VIOLATING messages of every type that has rules: the wrapper's validate and the validate plugin must give the
+    // typed API's verdict for them as well (a dispatch table that sends a type to "nothing to check" only shows on a message
+    // that breaks a rule).  The violating messages are the systematic single mutants of the shipped scenarios (C04 stream).
+    let scs = scen::all_scenarios();
+    for &c in SUPPORTED.iter() {
+        let mut done: Vec<Vec<String>> = Vec::new();
+        for (_, _, path) in scs.iter().filter(|s| s.0 == c) {
+            if done.len() >= (if o.thorough() { 12 } else { 4 }) { break; }
+            let Some(schema) = scen::load(path) else { continue };
+            let Ok(j) = scen::draw(&schema) else { continue };
+            for (_, m1) in crate::c04::single_mutants(&j) {
+                if done.len() >= (if o.thorough() { 12 } else { 4 }) { break; }
+                let r: Option<(Vec<String>, String)> = with_mt!(c, T => serde_json::from_value::<swift_mt_message::SwiftMessage<T>>(m1.clone()).ok().map(|m| (m.fields.validate_network_rules(false).iter().map(|e| e.error_code().to_string()).collect(), m.to_mt_message())), None);
+                let Some((codes, text)) = r else { continue };
+                if codes.is_empty() || done.contains(&codes) { continue; }
+                // the text must read back as the same type with the same verdict (else it is not a message of this type at all)
+                let te: Option<Vec<String>> = with_mt!(c, T => SwiftParser::parse::<T>(&text).ok().map(|m| m.fields.validate_network_rules(false).iter().map(|e| e.error_code().to_string()).collect()), None);
+                let Some(te) = te else { continue };
+                if te.is_empty() { continue; }
+                done.push(codes);
+                rep.case(&format!("violating {c} {:?}", te), true);
+                if let Ok(v) = plugins.validate(&text) {
+                    let valid = v.get("valid").and_then(Value::as_bool).unwrap_or(false);
+                    let n = v.get("errors").and_then(Value::as_array).map(|a| a.len()).unwrap_or(0);
+                    if valid || n != te.len() {
+                        rep.fail(&format!("dispatch|plugin_validate|verdict-differs code={c}"), json!({"code": c, "typed_codes": te, "plugin": v, "input_hex": hex(&text)}));
+                    }
+                } else {
+                    rep.fail(&format!("dispatch|plugin_validate|verdict-differs code={c}"), json!({"code": c, "typed_codes": te, "plugin": "error", "input_hex": hex(&text)}));
+                }
+                match SwiftParser::parse_auto(&text) {
+                    Ok(p) => {
+                        let vr = p.validate();
+                        if vr.is_valid || vr.errors.len() != te.len() {
+                            rep.fail(&format!("dispatch|wrapper_validate|verdict-differs code={c}"), json!({"code": c, "typed_codes": te, "wrapper_errors": vr.errors.len(), "input_hex": hex(&text)}));
+                        }
+                    }
+                    Err(_) => rep.fail(&format!("dispatch|parse_auto|code={c}"), json!({"code": c, "input_hex": hex(&text), "expected": "ok", "observed": "error on a message the typed API reads"})),
+                }
+            }
+        }
+        rep.tally(&format!("violating:MT{c}:{}", done.len()));
+    }
     rep
 }
